@@ -132,8 +132,12 @@ def grid():
                                                              ("generator-first", "coroutine-first"), (2, 3, 5)):
         out.append({"adapter": "any_iter", "outer": outer, "container": container, "items": "mixed-generators",
                     "length": length, "steps": length + 1, "data": first})
+    for outer, items, length in itertools.product(("plain", "coroutine"), ("plain", "coroutine", "object"), (0, 1, 3)):
+        for steps in range(0, length + 2):
+            out.append({"adapter": "any_iter", "outer": outer, "container": "logged", "items": items, "length": length,
+                        "steps": steps})
     for items, length in itertools.product(("coroutine", "object", "suspending", "futurelike", "gencoro"), range(0, 7)):
-        for container in ("list", "iter", "dual"):
+        for container in ("list", "iter", "dual", "logged"):
             for steps in range(0, length + 2):
                 out.append({"adapter": "await_each", "container": container, "items": items, "length": length,
                             "steps": steps})
@@ -160,6 +164,16 @@ def check_grid(case):
         container = list(wrapped)
     elif case["container"] == "genexpr":
         container = (w for w in wrapped)
+    elif case["container"] == "logged":
+        # a re-iterable whose __iter__ is observed: nothing is asked of the argument before the consumer asks for an item
+        opened = []
+
+        class Logged:
+            def __iter__(self):
+                opened.append(len(log))
+                return iter(list(wrapped))
+
+        container = Logged()
     elif case["container"] == "dual":
         # an Iterable[Awaitable] (what await_each is documented to take) that ALSO offers the async protocol, with
         # another meaning (a task group: iterating gives the pending awaitables, async-iterating the finished results)
@@ -189,6 +203,9 @@ def check_grid(case):
             it = a.any_iter(source)
         else:
             it = a.await_each(container)
+        if case["container"] == "logged" and opened:
+            got.append(("iterated-its-argument-before-the-first-request",))
+            return
         for k in range(case["steps"]):
             log.append(("ask", k))
             try:
